@@ -255,6 +255,39 @@ use super::*;
 pub broadcast proof fn axiom_string_to_string(s: String)
     ensures #[trigger] s.to_string_spec() == s@,
 {}
+/// `str: ToString` copies the characters; `char: ToString` is the one-character string (ASSUMED, std)
+#[verifier::external_body]
+pub broadcast proof fn axiom_str_to_string(s: &str)
+    ensures #[trigger] s.to_string_spec() == s@,
+{}
+#[verifier::external_body]
+pub broadcast proof fn axiom_char_to_string(c: char)
+    ensures #[trigger] c.to_string_spec() == seq![c],
+{}
+/// `String::from(&str)` / `<&str as Into<String>>::into` copies the characters (ASSUMED, std)
+#[verifier::external_body]
+pub broadcast proof fn axiom_str_into_string(a: &str, b: String)
+    ensures #[trigger] call_ensures(<&str as Into<String>>::into, (a,), b) ==> b@ == a@,
+{}
+/// `String::from(&str)` copies the characters (ASSUMED, std)
+#[verifier::external_body]
+pub broadcast proof fn axiom_string_from_str_obeys()
+    ensures #[trigger] <String as vstd::std_specs::convert::FromSpec<&'static str>>::obeys_from_spec(),
+{}
+#[verifier::external_body]
+pub broadcast proof fn axiom_string_from_str(s: &'static str)
+    ensures (#[trigger] <String as vstd::std_specs::convert::FromSpec<&'static str>>::from_spec(s))@ == s@,
+{}
+/// `i128::try_from(u128)`: exact when it fits, the (one) TryFromIntError otherwise (ASSUMED, std)
+#[verifier::external_body]
+pub broadcast proof fn axiom_i128_try_from_u128_obeys()
+    ensures #[trigger] <i128 as vstd::std_specs::convert::TryFromSpec<u128>>::obeys_try_from_spec(),
+{}
+#[verifier::external_body]
+pub broadcast proof fn axiom_i128_try_from_u128(v: u128)
+    ensures #[trigger] <i128 as vstd::std_specs::convert::TryFromSpec<u128>>::try_from_spec(v) ==
+        (if v <= i128::MAX { Ok::<i128, core::num::TryFromIntError>(v as i128) } else { Err::<i128, core::num::TryFromIntError>(the_try_from_int_error()) }),
+{}
 }
 pub use ax_tostring::*;
 
